@@ -34,6 +34,10 @@ import (
 	"verif/sim/tape"
 )
 
+// TreeMutated marks a result of a read-only tree operation (extract, scan,
+// serialise/format) that changed the tree it was given.
+const TreeMutated = "TREE-MUTATED-BY-READ-ONLY-OPERATION"
+
 type Kind int
 
 const (
@@ -267,7 +271,11 @@ func (o Op) Exec(hold bool) (res string, held []Held) {
 		if o.Flag&1 == 1 {
 			st = ast.CompactStyle()
 		}
+		before := canon.Of(a)
 		res = "sql=" + canon.Of(a.SQL()) + " fmt=" + canon.Of(a.Format(st))
+		if canon.Of(a) != before {
+			res += " " + TreeMutated
+		}
 		keepTree(a)
 	case FormatterFormat:
 		s, err := formatter.New(formatter.Options{IndentSize: o.Flag, Uppercase: o.Flag&1 == 1, Compact: o.Flag&2 == 2}).Format(o.SQL)
@@ -278,10 +286,15 @@ func (o Op) Exec(hold bool) (res string, held []Held) {
 			res = canon.Err(err)
 			break
 		}
+		before := canon.Of(a)
 		tabs, cols, fns := gosqlx.ExtractTables(a), gosqlx.ExtractColumns(a), gosqlx.ExtractFunctions(a)
 		md := gosqlx.ExtractMetadata(a)
+		mutated := canon.Of(a) != before
 		res = "tables=" + sortedSet(tabs) + " cols=" + sortedSet(cols) + " funcs=" + sortedSet(fns) +
 			" md=" + sortedSet(md.Tables) + sortedSet(md.Columns) + sortedSet(md.Functions)
+		if mutated {
+			res += " " + TreeMutated
+		}
 		keep("extracted-tables", tabs, nil)
 		keep("extracted-columns", cols, nil)
 		keep("extracted-metadata", md, nil)
@@ -296,8 +309,12 @@ func (o Op) Exec(hold bool) (res string, held []Held) {
 			res = canon.Err(err)
 			break
 		}
+		before := canon.Of(a)
 		r := security.NewScanner().Scan(a)
 		res = canon.Of(r)
+		if canon.Of(a) != before {
+			res += " " + TreeMutated
+		}
 		keep("scan-result", r, nil)
 		keepTree(a)
 	case Lint:
